@@ -309,6 +309,8 @@ class FsModel:
             return r
         if name == "len" and isinstance(r, Term) and r.op == "frame":
             return Term("len", r)
+        if name == "is_empty" and isinstance(r, Term) and r.op == "frame":
+            return rsx.Z(ex.bool_of(Term("frame_is_empty", r)))      # a frame may have length zero
         if name == "ends_with" and isinstance(r, Term) and r.op == "key":
             return rsx.Z(ex.bool_of(Term("ends_with", r, a[0])))
         if name == "contains" and isinstance(r, ListV) and isinstance(a[0], Term):
